@@ -19,9 +19,20 @@ inductive WShape where
   | capsule (a b : V3 Float) (r : Float)
   | triangle (a b c : V3 Float)
   | segment (a b : V3 Float)
+  /-- `Compound` / `TriMesh`: only the kind and a size bound are kept (witness membership is reported by the harness) -/
+  | composite (kind : String) (sz : Float)
 
-def pshape : P WShape := do
-  let k ← tok
+def fmag3 (v : V3 Float) : Float := v.x.abs + v.y.abs + v.z.abs
+def WShape.fsize : WShape → Float
+  | .ball r => r.abs
+  | .cuboid h => fmag3 h
+  | .halfspace _ => 0
+  | .capsule a b r => fmag3 a + fmag3 b + r.abs
+  | .triangle a b c => fmag3 a + fmag3 b + fmag3 c
+  | .segment a b => fmag3 a + fmag3 b
+  | .composite _ s => s
+
+def pprim (k : String) : P WShape :=
   match k with
   | "ball" => do let r ← pf; pure (.ball r)
   | "cuboid" => do let h ← pv3; pure (.cuboid h)
@@ -30,6 +41,32 @@ def pshape : P WShape := do
   | "triangle" => do let a ← pv3; let b ← pv3; let c ← pv3; pure (.triangle a b c)
   | "segment" => do let a ← pv3; let b ← pv3; pure (.segment a b)
   | _ => failure
+
+def pshape : P WShape := do
+  let k ← tok
+  match k with
+  | "compound" => do
+      let n ← pnat
+      let rec go : Nat → Float → P Float
+        | 0, acc => pure acc
+        | m+1, acc => do
+            let pose ← piso3; let k' ← tok; let part ← pprim k'
+            go m (max acc (fmag3 pose.t + part.fsize))
+      let sz ← go n 0
+      pure (.composite "compound" sz)
+  | "trimesh" => do
+      let _ ← pnat; let nv ← pnat
+      let rec gv : Nat → Float → P Float
+        | 0, acc => pure acc
+        | m+1, acc => do let v ← pv3; gv m (max acc (fmag3 v))
+      let sz ← gv nv 0
+      let nt ← pnat
+      let rec gt : Nat → P Unit
+        | 0 => pure ()
+        | m+1 => do let _ ← pnat; let _ ← pnat; let _ ← pnat; gt m
+      gt nt
+      pure (.composite "trimesh" sz)
+  | _ => pprim k
 
 def WShape.closed : WShape → Option (Shape3 Float)
   | .ball r => some (.ball r)
@@ -246,9 +283,19 @@ inductive WShape2 where
   | capsule (a b : V2 Float) (r : Float)
   | triangle (a b c : V2 Float)
   | segment (a b : V2 Float)
+  | composite (kind : String) (sz : Float)
 
-def pshape2 : P WShape2 := do
-  let k ← tok
+def fmag2 (v : V2 Float) : Float := v.x.abs + v.y.abs
+def WShape2.fsize : WShape2 → Float
+  | .ball r => r.abs
+  | .cuboid h => fmag2 h
+  | .halfspace _ => 0
+  | .capsule a b r => fmag2 a + fmag2 b + r.abs
+  | .triangle a b c => fmag2 a + fmag2 b + fmag2 c
+  | .segment a b => fmag2 a + fmag2 b
+  | .composite _ s => s
+
+def pprim2 (k : String) : P WShape2 :=
   match k with
   | "ball" => do let r ← pf; pure (.ball r)
   | "cuboid" => do let h ← pv2; pure (.cuboid h)
@@ -257,6 +304,27 @@ def pshape2 : P WShape2 := do
   | "triangle" => do let a ← pv2; let b ← pv2; let c ← pv2; pure (.triangle a b c)
   | "segment" => do let a ← pv2; let b ← pv2; pure (.segment a b)
   | _ => failure
+
+def pshape2 : P WShape2 := do
+  let k ← tok
+  match k with
+  | "compound" => do
+      let n ← pnat
+      let rec go : Nat → Float → P Float
+        | 0, acc => pure acc
+        | m+1, acc => do
+            let pose ← piso2; let k' ← tok; let part ← pprim2 k'
+            go m (max acc (fmag2 pose.t + part.fsize))
+      let sz ← go n 0
+      pure (.composite "compound" sz)
+  | "polyline" => do
+      let nv ← pnat
+      let rec gv : Nat → Float → P Float
+        | 0, acc => pure acc
+        | m+1, acc => do let v ← pv2; gv m (max acc (fmag2 v))
+      let sz ← gv nv 0
+      pure (.composite "polyline" sz)
+  | _ => pprim2 k
 def WShape2.closed : WShape2 → Option (Shape2 Float)
   | .ball r => some (.ball r)
   | .cuboid h => some (.cuboid h)
@@ -273,9 +341,17 @@ def WShape2.size : WShape2 → Rat
   | .capsule a b r => vmag2 (q2 a) + vmag2 (q2 b) + rabs (q r)
   | .triangle a b c => vmag2 (q2 a) + vmag2 (q2 b) + vmag2 (q2 c)
   | .segment a b => vmag2 (q2 a) + vmag2 (q2 b)
+  | .composite _ s => rabs (q s)
 def WShape2.kind : WShape2 → String
   | .ball _ => "ball" | .cuboid _ => "cuboid" | .halfspace _ => "halfspace"
   | .capsule .. => "capsule" | .triangle .. => "triangle" | .segment .. => "segment"
+  | .composite k _ => k
+def WShape2.isComposite : WShape2 → Bool
+  | .composite .. => true
+  | _ => false
+def WShape2.isHalfSpace : WShape2 → Bool
+  | .halfspace _ => true
+  | _ => false
 def qshape2 : Shape2 Float → Shape2 Rat
   | .ball r => .ball (q r)
   | .cuboid h => .cuboid (q2 h)
